@@ -198,6 +198,9 @@ async def scripted(events: List[str], seed: int) -> Dict[str, Any]:
                        f'c_del={",".join(map(str, c_sink)) or "-"} s_del={",".join(map(str, s_sink)) or "-"} '
                        f'failed={int(c.is_closed())}{int(s.is_closed())}')
         out['rekeys'] = (len(kt.keys.get(id(c), [])), len(kt.keys.get(id(s), [])))
+        out['drained'] = all(nd[d] >= len(hub.writes[d]) for d in (pair.C2S, pair.S2C))
+        out['c_del'], out['s_del'] = list(c_sink), list(s_sink)
+        out['failed'] = (c.is_closed(), s.is_closed())
         for conn in (c, s):
             conn.abort()
         await pair.settle(5)
@@ -325,9 +328,62 @@ def between_violations(types: List[int]) -> List[Tuple[int, int]]:
     return bad
 
 
+def oracle_scripts(ctx: Ctx, res: OracleResult, hist: Hist) -> None:
+    """the pair-level theorems on the real pair, script by script (no model involved): neither end fails
+    (rekey_never_fails), what each side's session received is an in-order prefix of what the other side wrote,
+    all of it once every written packet was delivered (pair_delivers_prefix_in_order / _everything_when_drained)"""
+    rng = ctx.subrng('oracle-scripts')
+    scripts = list(SCRIPT_CORPUS)
+    for s in ctx.suspects:
+        if isinstance(s, dict) and 'script' in s:
+            scripts.append(list(s['script']))
+    scripts += [gen_script(rng) for _ in range(ctx.n(40, 600))]
+
+    async def run_all() -> List[Dict[str, Any]]:
+        outs: List[Dict[str, Any]] = []
+        bad = 0
+        for i, sc in enumerate(scripts):
+            try:
+                o = await asyncio.wait_for(scripted(sc, i), 60)
+            except Exception as e:
+                o = {'events': sc, 'harness_exc': type(e).__name__}
+                bad += 1
+            outs.append(o)
+            if bad >= 5:
+                break
+        return outs
+    outs = pair.run(run_all(), timeout=3300)
+    for o in outs:
+        res.evaluations += 1
+        key = {'script': o['events']}
+        if 'harness_exc' in o:
+            res.failures.append(Failure('rekey-script-did-not-complete:' + o['harness_exc'],
+                                        f'scripted pair did not get through {o["events"][:12]}...', key))
+            continue
+        want_s = [int(e.split(':')[2]) for e in o['events'] if e.startswith('sc:94:')]
+        want_c = [int(e.split(':')[2]) for e in o['events'] if e.startswith('ss:94:')]
+        hist.hit('script:' + ('drained' if o['drained'] else 'in-flight'))
+        if any(o['failed']) or 'exception' in o:
+            res.failures.append(Failure('rekey-failed-between-honest-ends',
+                                        f'client closed={o["failed"][0]} server closed={o["failed"][1]} '
+                                        f'{o.get("exception", "")} for script {o["events"]}', key))
+            continue
+        for role, got, want in (('server', o['s_del'], want_s), ('client', o['c_del'], want_c)):
+            if got != want[:len(got)]:
+                res.failures.append(Failure('channel-data-differs-across-rekey',
+                                            f'{role} session received {got}, the peer wrote {want}; script {o["events"]}',
+                                            key))
+            elif o['drained'] and got != want:
+                res.failures.append(Failure('channel-data-held-back-after-rekey',
+                                            f'every written packet was delivered but the {role} session received '
+                                            f'{got} of {want}; script {o["events"]}', key))
+    res.nontrivial += len(set(tuple(o['events']) for o in outs if o.get('rekeys', (0, 0))[0] > 0))
+
+
 def oracle(ctx: Ctx) -> OracleResult:
     res = OracleResult()
     hist = Hist()
+    oracle_scripts(ctx, res, hist)
     rng = ctx.subrng('oracle')
     cases = []
     combos = ts.combos(rng, ctx.n(6, 40), reference_only=True)
@@ -394,7 +450,7 @@ def oracle(ctx: Ctx) -> OracleResult:
                                                     f'{role}: traffic after the second NEWKEYS decodes under the first keys', key))
                     except refpeer.Problem:
                         hist.hit('stale-keys-rejected')
-    res.nontrivial = len(set((o['rekey_c'], o['rekey_s'], tuple(o['sizes'])) for o in outs if o.get('rekeys', 0) > 1))
+    res.nontrivial += len(set((o['rekey_c'], o['rekey_s'], tuple(o['sizes'])) for o in outs if o.get('rekeys', 0) > 1))
     res.histogram = dict(hist)
     res.samples = [{k: o[k] for k in ('rekey_c', 'rekey_s', 'sizes', 'rekeys') if k in o} for o in outs[:3]]
     res.rule = ('echo sessions with client/server rekey_bytes from 1 upward, random write sizes, seeded re-chunking, '
@@ -406,7 +462,15 @@ def replay(ctx: Ctx, rep: Dict[str, Any]) -> List[Failure]:
     r = rep.get('replay', rep)
     if 'script' in r:
         o = pair.run(scripted(r['script'], 0))
-        return []
+        want_s = [int(e.split(':')[2]) for e in o['events'] if e.startswith('sc:94:')]
+        want_c = [int(e.split(':')[2]) for e in o['events'] if e.startswith('ss:94:')]
+        fails = []
+        if any(o['failed']) or 'exception' in o:
+            fails.append(Failure('rekey-failed-between-honest-ends', str(o['failed']), r))
+        for got, want in ((o['s_del'], want_s), (o['c_del'], want_c)):
+            if got != want[:len(got)] or (o['drained'] and got != want):
+                fails.append(Failure('channel-data-differs-across-rekey', f'{got} vs {want}', r))
+        return fails
     o = pair.run(busy_session(r['rekey_c'], r['rekey_s'], r['sizes'], r['seed'], {k: v for k, v in r['algs'].items()}))
     fails = []
     if 'error' in o:
